@@ -22,7 +22,7 @@ class C07(SeqProp):
     id = "C07"
     props_file = "Props/C07.v"
     focus = "phase"
-    quick_cases = 380
+    quick_cases = 800
     thorough_cases = 6000
     assumptions = [
         "additivity is proved for the tracker operation (mod-2pi float addition, bit-exact model); the oracle compares the running sum with tolerance 1e-9",
